@@ -22,6 +22,8 @@ def oracle_req(case, reply):
         # hypothesis of ll_complete / ll_accepts_iff_checked, evaluated once per real table set
         _seen_tables.add(key)
         reqs.append("ll-tables-exact " + key)
+        # C01c: the real tables are what the Lean generator `genTables` computes from the transformed grammar
+        reqs.append("gen-tables-match " + w[1] + " " + w[13] + " " + w[10] + " " + key)
     if w[5] == "-":       # a depth limit may legitimately reject a sentence (C20 covers it)
         verdict = reply.split()[0] if reply.split() else "none"
         reqs.append("ll-verdict " + key + " " + w[7] + " " + w[8] + " " + w[9] + " " + verdict)
@@ -33,11 +35,52 @@ def nontrivial(case):
     return len(w) >= 13 and w[6] != "-" and w[3].count("+") >= 1
 
 
+def c01c_tie(ctx, state):
+    """C01c: tie D for the generator as a whole (`genTables`, Props/C01c.lean) + its property oracle."""
+    cases_p, impl_p, model_p = ctx.path("c01c_cases.txt"), ctx.path("c01c_impl.txt"), ctx.path("c01c_model.txt")
+    okg, errg = common.gen_cases("c01c", ctx.seed, ctx.tier, cases_p)
+    cases = common.read_lines(cases_p) if okg else []
+    oki, erri = common.run_impl("c01c", cases_p, impl_p)
+    impl = common.read_lines(impl_p)
+    common.run_model(cases_p, model_p)
+    model = common.read_lines(model_p)
+    if not okg or not oki or len(impl) != len(cases) or not cases:
+        common.violation(ctx, "C01_c01c_impl_run.json", {
+            "broken": "correspondence D:c01c (implementation driver crashed or produced too few replies)",
+            "stderr": (errg if not okg else erri), "replies": len(impl), "cases": len(cases)}, no_input=True)
+        return
+    diffs = common.diff_streams(cases, impl, model)
+    reqs = ["gen-tables-check " + " ".join(c.split()[1:4]) + " " + a for c, a in zip(cases, impl)]
+    with open(ctx.path("c01c_oracle_req.txt"), "w") as f:
+        f.write("\n".join(reqs) + "\n")
+    common.run_model(ctx.path("c01c_oracle_req.txt"), ctx.path("c01c_oracle_rep.txt"))
+    reps = common.read_lines(ctx.path("c01c_oracle_rep.txt"))
+    fails = [(c, a, r) for c, a, r in zip(cases, impl, reps + ["<missing>"] * (len(cases) - len(reps))) if r != "ok"]
+    if fails:
+        fails.sort(key=lambda t: len(t[0]))
+        common.violation(ctx, "C01_c01c_oracle.json", {
+            "kind": "property fails on the implementation (oracle): real tables of a grammar of the class are not exact/sound",
+            "case": fails[0][0], "impl_reply": fails[0][1], "oracle": fails[0][2], "count": len(fails)})
+    elif diffs:
+        diffs.sort(key=lambda t: len(t[1]))
+        i, c, a, b = diffs[0]
+        common.violation(ctx, "C01_c01c_tie.json", {
+            "kind": "model generator and real generator disagree; the property oracle found no failing input",
+            "broken": "correspondence D:c01c (theorems of ParolModel.Props.C01c no longer transfer to the code)",
+            "case": c, "impl_reply": a, "model_reply": b, "disagreements": len(diffs)}, no_input=True)
+    tables = [a for a in impl if not a.startswith("err")]
+    state["coverage_extra"] = {"c01c_generator_tie": {
+        "cases": len(cases), "disagreements": len(diffs), "real_table_sets": len(tables),
+        "with_lookahead_ge_2": sum(1 for a in tables if any(d.split("/")[1] not in ("0", "1") for d in a.split()[2].split(";"))),
+        "oracle_checked": len(reqs), "oracle_failures": len(fails)}}
+
+
 SPEC = {
+    "extra": c01c_tie,
     "prop": "llrun",
     "gen_extra": ["plain"],
     "mod": "ParolModel.Props.C01",
-    "more_mods": ["ParolModel.Props.C01b"],
+    "more_mods": ["ParolModel.Props.C01b", "ParolModel.Props.C01c"],
     "files": FILES,
     "oracle_req": oracle_req,
     "nontrivial": nontrivial,
@@ -49,16 +92,16 @@ SPEC = {
     "assumptions": [
         "the Lean function `llRun` mirrors LLKParser::parse_into up to the first syntax error; agreement (result, action trace, tree events, comments) is observed on the explored runs",
         "error recovery is not modelled: with recovery on only the verdict ok / not-ok is compared; that recovery cannot turn an error into success rests on the drain-site analysis in DESIGN.md §6 C01 plus this tie",
-        "completeness is a theorem about the model under TablesExact (the automata predict the right production on every reference lookahead string); that hypothesis is not proved for parol's table generator for all grammars — it is DECIDED for every real table set explored by the verified checker tablesExactB (tablesExactB_sound), and the equality with the ORIGINAL grammar's language (through parol's transformations) is covered per explored grammar by the verified membership oracle",
+        "completeness is a theorem about the model under TablesExact (the automata predict the right production on every reference lookahead string); for the model generator genTables that hypothesis is a theorem (pipeline_tables_exact), and genTables is tied to the real generator byte for byte; independently it is DECIDED for every real table set explored by the verified checker tablesExactB (tablesExactB_sound), and the equality with the ORIGINAL grammar's language (through parol's transformations) is covered per explored grammar by the verified membership oracle",
         "the token sequence is the one the real TokenStream delivers for the rendered text (scanner behaviour is C13)",
     ],
 }
 
 CLAIM = {
     "category": "proof",
-    "text": "Both halves as theorems for all tables and inputs. Completeness: ll_complete / ll_complete_explicit (a sentence of the production table with a derivation of m production applications is accepted within |w|+2m steps with exactly m actions — no left-recursion or token hypothesis) and ll_accepts_iff_checked (tables passing the verified checkers tablesSoundB and tablesExactB accept EXACTLY the language of the production table); tablesExactB is evaluated by Lean on every real table set. Soundness half as a theorem for all tables and inputs: ll_sound — if the model of LLKParser::parse_into answers ok then the significant token types are in the language of the production table, for ARBITRARY lookahead automata, any trim/recovery/depth option (only hypothesis: TablesSound, decided per real table set by the verified checker tablesSoundB); foreign_token_rejected — a token type that occurs in no production can never be accepted. The model is tied to the code by exact differential runs on tables produced by parol's real pipeline (built in-process, scanner built with scnr2_generate) and the real token streams. The end-to-end equality with the ORIGINAL grammar's language are decided per explored grammar by the verified membership recogniser (member_iff) on all short token strings plus random sentences and mutants, with recovery on and off.",
+    "text": "End-to-end theorem for generator + runtime at model level (Props/C01c): pipeline_end_to_end — for every BNF grammar G passing the decidable class check (parol's own grammar checks pass, terminals numbered from 5, non-terminals dense) and every K, if the model generator genTables (decision C05 -> FIRST_k/FOLLOW_k C06 -> trie/unite/compile/minimise C07 -> table layout) yields tables T then the parser model accepts toks iff Lang G (sigTypes toks); pipeline_tables_exact, pipeline_no_false_conflict. genTables is tied to the real generator by byte-identical comparison of the table sets on random grammars fed untransformed to calculate_lookahead_dfas + export model, and reproduces every real table set of the full PAR pipeline from its transformed grammar (gen-tables-match). Both halves as theorems for all tables and inputs. Completeness: ll_complete / ll_complete_explicit (a sentence of the production table with a derivation of m production applications is accepted within |w|+2m steps with exactly m actions — no left-recursion or token hypothesis) and ll_accepts_iff_checked (tables passing the verified checkers tablesSoundB and tablesExactB accept EXACTLY the language of the production table); tablesExactB is evaluated by Lean on every real table set. Soundness half as a theorem for all tables and inputs: ll_sound — if the model of LLKParser::parse_into answers ok then the significant token types are in the language of the production table, for ARBITRARY lookahead automata, any trim/recovery/depth option (only hypothesis: TablesSound, decided per real table set by the verified checker tablesSoundB); foreign_token_rejected — a token type that occurs in no production can never be accepted. The model is tied to the code by exact differential runs on tables produced by parol's real pipeline (built in-process, scanner built with scnr2_generate) and the real token streams. The end-to-end equality with the ORIGINAL grammar's language are decided per explored grammar by the verified membership recogniser (member_iff) on all short token strings plus random sentences and mutants, with recovery on and off.",
     "design_ref": "DESIGN.md §6 C01",
-    "note": "Trusted: Lean kernel; faithfulness of the hand-written model as observed by the differential run; harness (grammar rendering, table/token encoders, dynamic scanner construction) and orchestrator. Not proved: that parol's generator yields exact tables for every grammar (checked per table), recovery internals. Grammars are sampled.",
+    "note": "Trusted: Lean kernel; faithfulness of the hand-written model as observed by the differential run; harness (grammar rendering, table/token encoders, dynamic scanner construction) and orchestrator. Not proved: totality of the generator model (fuel / minimisation panic outcomes never occurred), language preservation of the PAR front end's transformations is C09/C10/C12's business, recovery internals. Grammars are sampled.",
     "technique": "Lean 4 proof (soundness and completeness for all inputs, hypotheses checked per real table) over hand-written model + differential correspondence check + verified membership oracle",
 }
 
